@@ -13,7 +13,7 @@ FAMS=[
   "C07-F7 family (zone cut located with unvalidated NS probes, unsigned records in a signed zone marked Insecure after the zone's own genuine NODATA proof for DS): every insecure-side violation whose shrunk fault set contains a fake cut or injected unsigned records"),
  ("C07-FAM4","F10", P+r"(?:unauthenticated-denial|false-denial|false-denial-served|served-forged-to-cd0)", r"irrelevant-answer\|.*|"+kind_re(["alter-bit:data","drop:data","replace-genuine:data:foreign-owner","alter-bit","drop","replace-genuine"]).replace("(?::[a-z0-9-]+)*","",1) ,
   "C07-F10 family (the validator never checks that a response answers the question): an answer section left without the data asked for (record dropped, owner/rdata altered, foreign records) is returned as 'no data' instead of an error; every denial-side violation with outcome irrelevant-answer, or whose shrunk fault set alters/drops/replaces the answer's data record"),
- ("C07-FAM5","F11d", P+r"(?:secure-not-genuine|served-forged-to-cd0)", r"dnskey:not-in-zone-data\|.*|answer\|replace-genuine:dnskey:rdata",
+ ("C07-FAM5","F11d", P+r"(?:secure-not-genuine|served-forged-to-cd0)", r"dnskey:not-in-zone-data\|.*|answer\|(?:replace-genuine:dnskey:rdata|alter-bit:dnskey)",
   "C07-F11d family (a DNSKEY RRset is accepted without a valid RRSIG when every key in it matches a DS / the anchor; anchors matched by key bytes regardless of owner): a key set that is not the zone's (keys dropped, altered, planted) is Secure"),
 ]
 if __name__=="__main__":
